@@ -148,7 +148,17 @@ func checkC08(ix *index, add addFn) {
 			r := &ix.tr[j]
 			if r.P.Type == TSubscribe && subsKey(r.P.Subs) == key {
 				if a := ix.rxAfter(r.Conn, TSubAck, r.P.ID, j); a >= 0 && a < before {
-					n++
+					// bytes made readable in the very instant in which the link was
+					// reset may never have been read: such a SUBACK is not counted
+					lost := false
+					for k := a; k < len(ix.tr) && ix.tr[k].T == ix.tr[a].T; k++ {
+						if q := &ix.tr[k]; q.Kind == "cut" && q.Conn == r.Conn {
+							lost = true
+						}
+					}
+					if !lost {
+						n++
+					}
 				}
 			}
 		}
